@@ -11,13 +11,16 @@ Correspondence of Thresholder.v with the real code:
 from __future__ import annotations
 import math
 from fractions import Fraction
-from harness.core import Rng, gz, gq, gnat, glist, Dec
+from harness.core import Rng, gz, gq, gnat, glist, gbool, Dec
+from harness.props import _c04_common as _c04          # read-only: constraint / objective name tables
 
 PID = "C10"
-VO = ["theories/Base/Flat.vo", "theories/Post/Thresholder.vo", "theories/Post/Thresholder_proofs.vo"]
+VO = ["theories/Base/Flat.vo", "theories/Post/Thresholder.vo", "theories/Post/Thresholder_proofs.vo",
+      "theories/Post/ThresholderBridge.vo", "theories/Post/ThresholderBridge_proofs.vo"]
 PROPS_FILES = ["props/C10.v"]
-TRANSLATORS = ["t_thresholder"]
-REQUIRES = ["From FL Require Import Num Flat ListX Thresholder."]
+TRANSLATORS = ["t_thresholder", "t_threshopt", "t_egconst", "t_egweights"]
+REQUIRES = ["From FL Require Import Num Flat ListX Thresholder.",
+            "From FL Require Tradeoff ThreshOpt ThresholderBridge."]
 SHARD = 12
 CHUNK = 1
 CASE_TIMEOUT = 300
@@ -31,22 +34,34 @@ LEVEL_TEXT = ("Proof (Coq), for every fitted rule given as data and on the expre
               "moments the uniform numbers selecting predictor t form an interval of length weights_[t] whatever the "
               "storage order of weights_, and the returned number is that predictor's output. Tie to the code: "
               "translator t_thresholder (fail closed) + differential runs on fitted ThresholdOptimizer / "
-              "ExponentiatedGradient models incl. predict under a scripted RandomState.")
+              "ExponentiatedGradient models incl. predict under a scripted RandomState. Extension: no hypothesis is "
+              "left on the fitted rule / weights: every rule the C04/C05 model of ThresholdOptimizer.fit produces "
+              "(any groups with both labels, constraint, objective, flip, grid size; re-assembled from the fragments "
+              "t_threshopt regenerates) is valid, so the reported pmf of a fitted ThresholdOptimizer is a distribution "
+              "at every (group, score) and, with flip=False, monotone in the score; weights_ of the C08 model of "
+              "ExponentiatedGradient.fit (EG or LP branch, selected iteration, zero padding; t_egconst fragments) is "
+              "a probability vector over distinct predictor ids, so the reported pmf of hard predictors is in [0,1]. "
+              "Tie to the code: on tie-free cases the pmf table of the rule converted from the FIT MODEL is compared "
+              "with _pmf_predict of the fitted implementation on every query row.")
 LEVEL_NOTE = ("NOT proved: 'frequencies over independent seeds match the pmf' (no measure theory; what is proved is the "
               "exact set of uniform numbers mapped to each outcome, the frequency statement is a labelled statistical "
-              "TEST: exact binomial tail < 2e-9, about 6 sigma). That fit produces valid rules / weights is the "
-              "business of the fit models (C05/C08), here it is checked per case. numpy's MT19937 stream and "
+              "TEST: exact binomial tail < 2e-9, about 6 sigma). That fit produces valid rules / weights is proved for "
+              "the fit MODELS of C04/C05/C08 (bridge theorems) and additionally checked per case on the implementation; "
+              "remaining guards of the EG bridge: at least one iteration, and scipy's linprog answer meets the "
+              "constraints solve_linprog passes (trusted solver, as in C08). numpy's MT19937 stream and "
               "RandomState.choice (cumsum + searchsorted side='right') are modelled, not verified.")
 TECHNIQUE = ("Coq proofs about the pmf / draw expressions regenerated from the source + differential model/implementation "
              "run with a scripted random generator")
-TRUSTED = ["Coq 8.16.1 kernel and vm_compute", "translators/t_thresholder.py", "harness/props/c10.py (generators, "
+TRUSTED = ["Coq 8.16.1 kernel and vm_compute", "translators/t_thresholder.py, t_threshopt.py, t_egconst.py, t_egweights.py",
+           "harness/props/c10.py (generators, "
            "scripted RandomState, comparison)", "numpy RandomState.rand / choice semantics (modelled)",
            "harness.learners test doubles", "no axioms (Print Assumptions: closed)"]
 ASSUMPTIONS = ["the fitted rule (interpolation_dict, weights_, predictors' outputs) is taken from the implementation "
                "as exact rationals of its floats; pmf comparison tolerance 1e-12",
                "rand() is uniform on [0,1): frequency = measure of the proved interval (tested, not proved)",
                "query rows belong to groups seen in fit"]
-RULE = ("cases: random small datasets (both labels in each group) -> fitted ThresholdOptimizer (7 constraints x "
+RULE = ("cases: random small datasets (both labels in each group; a second stream with few score levels of mixed "
+        "labels per group, built so that the fit model is mostly tie-free) -> fitted ThresholdOptimizer (7 constraints x "
         "objectives x flip x grid 2..20) / ExponentiatedGradient (DemographicParity, EqualizedOdds, BoundedGroupLoss; "
         "with / without LP step); query rows = training rows + unseen scores between / outside levels + scores equal "
         "to a threshold; non-trivial = some query row is genuinely randomised (0 < p < 1, resp. two positive-weight "
@@ -121,6 +136,44 @@ def _eg_case(r, stat, reg):
     return c
 
 
+def _to_case_bridge(r):
+    """ThresholdOptimizer cases for the fit-model bridge.  Every threshold step moves the point of the tradeoff
+    curve by a vector that is affine in (negatives passed, positives passed); two consecutive steps with parallel
+    vectors (e.g. two single rows of the same label at distinct scores) give three exactly collinear points, which
+    the float hull may keep or drop (a tie: not compared).  So: few score LEVELS per group, several rows of mixed
+    labels on each, consecutive levels with non-parallel (negatives, positives) compositions."""
+    ng = r.randint(2, 3)
+    names = r.choice(GROUP_NAMES)[:ng]
+    den = r.choice([1, 2, 4])
+    sf, y, s = [], [], []
+    for g in range(ng):
+        nl = r.randint(2, 5)
+        levels = sorted(r.sample(range(0, 13), nl))
+        comp, prev = [], None
+        for _ in range(nl):
+            for _try in range(20):
+                a, b = r.randint(0, 3), r.randint(0, 3)
+                if (a, b) != (0, 0) and (prev is None or a * prev[1] != b * prev[0]):
+                    break
+            comp.append((a, b)); prev = (a, b)
+        if sum(a for a, _ in comp) == 0:
+            comp[r.randint(0, nl - 1)] = (1, comp[0][1] or 1)
+        if sum(b for _, b in comp) == 0:
+            comp[r.randint(0, nl - 1)] = (comp[0][0] or 1, 1)
+        for lv, (a, b) in zip(levels, comp):
+            for l in [0] * a + [1] * b:
+                sf.append(names[g]); y.append(l); s.append(lv / den)
+    perm = list(range(len(y))); r.shuffle(perm)
+    eo = r.chance(1, 4)
+    hi = 12
+    return {"kind": "to", "sf": [sf[p] for p in perm], "y": [y[p] for p in perm], "score": [s[p] for p in perm],
+            "constraint": "equalized_odds" if eo else r.choice(SIMPLE),
+            "objective": r.choice(OBJ_EO if eo else OBJ_SIMPLE), "flip": r.chance(1, 2),
+            "grid_size": r.choice([2, 3, 4, 5, 7, 10, 13, 20, r.randint(2, 20)]),
+            "query": [[r.choice(names), r.randint(-2, 2 * hi + 2) / (2 * den)] for _ in range(r.randint(3, 8))],
+            "stat": False, "rs": r.randint(0, 10 ** 6), "stream": "bridge"}
+
+
 def cases(tier, seed):
     n = {"quick": 132, "thorough": 1100}[tier]
     out = []
@@ -134,6 +187,8 @@ def cases(tier, seed):
             out.append(_eg_case(r, stat, False))
         else:
             out.append(_eg_case(r, stat, True))
+    for i in range({"quick": 100, "thorough": 800}[tier]):
+        out.append(_to_case_bridge(Rng(seed, PID, tier, "bridge", i)))
     return out
 
 
@@ -505,6 +560,35 @@ def _gweights(out):
 
 
 GRID_ORDER = ["zero", "at_p", "above_p", "below_p", "top", "dyadic"]
+BRIDGE_TOL = 1e-9    # rule converted from the exact fit model vs the float fit of the implementation
+
+
+def _group_codes(case):
+    """the codes _impl_to gives the groups (same order)"""
+    names = sorted(set(case["sf"]), key=lambda v: (str(type(v)), v))
+    return {v: i for i, v in enumerate(names)}
+
+
+def _bridge_part(case):
+    """ThresholderBridge.run_bridge_*: the C04 fit model on the training table (integer scores = score * D), its
+    rules converted to interpolation_dict entries in the units of the real scores, evaluated on the query rows"""
+    code = _group_codes(case)
+    fr = [Fraction(float(v)) for v in case["score"]]
+    D = 1
+    for v in fr:
+        D = D * v.denominator // math.gcd(D, v.denominator)
+    groups = [[] for _ in code]
+    for g, l, v in zip(case["sf"], case["y"], fr):
+        groups[code[g]].append(f"({gz(int(v * D))}, {gbool(bool(l))})")
+    gl = glist([glist(grp) for grp in groups])
+    codes = glist([gz(i) for i in range(len(code))])
+    flip = gbool(case["flip"])
+    n = f"{int(case['grid_size'])}%positive"
+    obj = "Tradeoff." + _c04.OBJ[case["objective"]]
+    if case["constraint"] == "equalized_odds":
+        return f"ThresholderBridge.run_bridge_eo {D}%positive {flip} {obj} {n} {gl} {codes} rows"
+    mx = "Tradeoff." + _c04.SIMPLE[case["constraint"]]
+    return f"ThresholderBridge.run_bridge_simple {D}%positive {flip} {mx} {obj} {n} {gl} {codes} rows"
 
 
 def _draw_part(out):
@@ -521,7 +605,7 @@ def term(case, out):
         d = glist([_grule(r) for r in out["rules"]])
         rows = glist([f"({gz(g)}, {gq(_fr(s))})" for g, s in out["qrows"]])
         return (f"let d := {d} in let rows := {rows} in "
-                f"enc_list (enc_pair enc_q enc_q) (pmf_rows d rows) ++ {_draw_part(out)}")
+                f"enc_list (enc_pair enc_q enc_q) (pmf_rows d rows) ++ {_draw_part(out)} ++ {_bridge_part(case)}")
     Qw = _gweights(out)
     outs = glist([_gql(row) for row in out["outs"]])
     if kind == "eg":
@@ -538,6 +622,14 @@ def decode(case, zs):
     kind = case["kind"]
     if kind == "to":
         m = {"pmf": d.list(lambda: [d.q(), d.q()]), "draws": d.list(lambda: d.list(d.z))}
+
+        def dop():
+            return [">" if d.z() == 1 else "<", d.ext()]
+        m["fit_tie"] = d.bool()
+        m["fit_valid"] = d.bool()
+        m["fit_rules"] = d.list(lambda: {"p0": d.q(), "op0": dop(), "p1": d.q(), "op1": dop(), "p_ignore": d.q(),
+                                         "pred_const": d.q()})
+        m["fit_pmf"] = d.list(lambda: [d.q(), d.q()])
     elif kind == "eg":
         m = {"pmf": d.list(d.q), "draws": d.list(lambda: d.list(d.z))}
     else:
@@ -611,6 +703,68 @@ def _dist_checks(v, ep, pmf):
             break
 
 
+def _canon_ops(r, pig_none_ok=True):
+    """a rule as {(operator, threshold): total weight} (zero-weight operations dropped)"""
+    dd = {}
+    for p, o in ((r["p0"], r["op0"]), (r["p1"], r["op1"])):
+        if abs(float(p)) > 1e-12:
+            t = o[1]
+            t = math.inf if t == "inf" else (-math.inf if t == "-inf" else float(t))
+            dd[(o[0], t)] = dd.get((o[0], t), 0.0) + float(p)
+    return dd
+
+
+def _bridge_checks(v, ep, case, out, model):
+    """the rule CONVERTED FROM THE FIT MODEL (C04 fit_simple / fit_eo -> ThresholderBridge.conv_rule) next to the
+    implementation's interpolation_dict and _pmf_predict"""
+    if not model["fit_valid"]:
+        v.append((f"{PID}/model/fitted-rule/theorem-contradicted", "a rule of the fit model fails rule_valid_b",
+                  "C10_fitted_rules_valid (proved)", "correspondence"))
+    for i, (a, b) in enumerate(model["fit_pmf"]):
+        if not (0 <= a <= 1 and 0 <= b <= 1 and a + b == 1):
+            v.append((f"{PID}/model/fitted-pmf/theorem-contradicted", f"row {i}: ({a}, {b})",
+                      "C10_pmf_unit_for_fitted_models (proved)", "correspondence"))
+            break
+    if not case["flip"] and any(r["op0"][0] != ">" or r["op1"][0] != ">" for r in model["fit_rules"]):
+        v.append((f"{PID}/model/fitted-rule/theorem-contradicted", "a '<' operation in the fit model without flip",
+                  "C10_monotone_for_fitted_models_without_flip (proved)", "correspondence"))
+    if model["fit_tie"]:
+        return
+    if len(model["fit_pmf"]) != len(out["pmf"]) or len(model["fit_rules"]) != len(out["rules"]):
+        v.append((f"{PID}/{ep}/fit/shape-differs-from-fit-model",
+                  f"{len(out['rules'])} rules / {len(out['pmf'])} rows vs model {len(model['fit_rules'])} / "
+                  f"{len(model['fit_pmf'])}", "one rule per group, one pmf row per query row", "correspondence"))
+        return
+    byg = {r["group"]: r for r in out["rules"]}
+    for g, mr in enumerate(model["fit_rules"]):
+        ir = byg.get(g)
+        if ir is None:
+            v.append((f"{PID}/{ep}/fit/interpolation_dict-differs-from-fit-model", f"no rule for group code {g}",
+                      "one rule per group", "correspondence"))
+            continue
+        a, b = _canon_ops(ir), _canon_ops(mr)
+        ipig = 0.0 if ir["p_ignore"] is None else float(ir["p_ignore"])
+        ic = 0.0 if ir["pred_const"] is None else float(ir["pred_const"])
+        same = (set(a) == set(b) and all(abs(a[k] - b[k]) <= BRIDGE_TOL for k in a)
+                and abs(ipig - float(mr["p_ignore"])) <= BRIDGE_TOL and abs(ic - float(mr["pred_const"])) <= BRIDGE_TOL)
+        if not same:
+            v.append((f"{PID}/{ep}/fit/interpolation_dict-differs-from-fit-model",
+                      f"group code {g}: implementation {ir}; rule converted from the fit model "
+                      f"{ {k: (float(x) if isinstance(x, Fraction) else x) for k, x in mr.items()} }",
+                      "tie-free case: p0, p1, operations, thresholds, p_ignore, prediction_constant equal the "
+                      "converted model rule", "correspondence"))
+            break
+    for i, (row, m) in enumerate(zip(out["pmf"], model["fit_pmf"])):
+        if abs(row[0] - float(m[0])) > BRIDGE_TOL or abs(row[1] - float(m[1])) > BRIDGE_TOL:
+            g, s_ = out["qrows"][i]
+            v.append((f"{PID}/{ep}/_pmf_predict/differs-from-pmf-of-fit-model",
+                      f"row {i} (group {g}, score {s_!r}): implementation {row}, rule converted from the fit model "
+                      f"{[float(m[0]), float(m[1])]}",
+                      "tie-free case: _pmf_predict of the fitted estimator = pmf of the rule the fit model produces "
+                      "(the object the bridge theorems are about)", "correspondence"))
+            break
+
+
 def compare(case, out, model):
     v = []
     if "fit_error" in out:
@@ -658,6 +812,8 @@ def compare(case, out, model):
                               "without '<' operations the positive probability never decreases with the score",
                               "property"))
                     break
+        if model is not None:
+            _bridge_checks(v, ep, case, out, model)
         _sampling_checks(v, ep, case, out, model)
         return v
     # ---- EG ----
@@ -763,6 +919,8 @@ def tags(case, out, model):
         t.append("frequency-TEST-run(400 seeds)")
     if kind == "to":
         t += [f"constraint:{case['constraint']}", f"flip:{case['flip']}", f"grid:{min(case['grid_size'] // 5 * 5, 20)}+"]
+        if case.get("stream") == "bridge":
+            t.append("stream:fit-model-bridge")
         ops = {r[o][0] for r in out["rules"] for o in ("op0", "op1")}
         t.append("ops:" + "".join(sorted(ops)))
         if any(isinstance(r[o][1], str) for r in out["rules"] for o in ("op0", "op1")):
@@ -777,6 +935,15 @@ def tags(case, out, model):
         thr = {(r["group"], r[o][1]) for r in out["rules"] for o in ("op0", "op1")}
         if any((g, s) in thr for g, s in out["qrows"]):
             t.append("score-equals-threshold")
+        if model is not None:
+            t.append("fit-model:tie" if model["fit_tie"] else "fit-model:tie-free(pmf table compared)")
+            if not model["fit_tie"]:
+                t.append("fit-model:tie-free," + ("equalized_odds" if case["constraint"] == "equalized_odds" else "simple")
+                         + (",flip" if case["flip"] else ",no-flip"))
+            if not model["fit_tie"] and any(0 < r["p0"] < 1 for r in model["fit_rules"]):
+                t.append("fit-model:tie-free,mixed-rule")
+            if not model["fit_tie"] and any(r["p_ignore"] > 0 for r in model["fit_rules"]):
+                t.append("fit-model:tie-free,p_ignore>0")
     else:
         t.append(f"lp:{case['lp']}")
         if kind == "eg":
